@@ -66,15 +66,23 @@ def _sym_fva(E, m, v, ids):
 
 
 def _render(E, s):
-    if not E.symbolic:
-        try:
-            s.to_string()
-            s.to_html()
-            s.to_frame()
-            s._repr_html_()
-            E.prove(True, "renders-without-error")
-        except Exception as e:
-            E.prove(False, "renders-without-error", exc=type(e).__name__, msg=str(e)[:200])
+    """concrete replays only (float formatting): every rendering works, repeatedly and with names on and off, and
+    rendering does not change the summary's own tables"""
+    if E.symbolic:
+        return
+    tabs = [n for n in ("uptake_flux", "secretion_flux", "producing_flux", "consuming_flux") if hasattr(s, n)]
+    before = {n: getattr(s, n).copy(deep=True) for n in tabs}
+    try:
+        for names in (True, False, True):
+            s.to_string(names=names)
+            s.to_html(names=names)
+        s.to_frame()
+        s._repr_html_()
+        E.prove(True, "renders-without-error")
+    except Exception as e:
+        E.prove(False, "renders-without-error", exc=type(e).__name__, msg=str(e)[:200])
+    changed = [n for n in tabs if not getattr(s, n).equals(before[n])]
+    E.prove(not changed, "rendering-leaves-the-summary-unchanged", tables=changed)
 
 
 def c20_model(E):
@@ -198,6 +206,76 @@ def c20_reaction(E):
     _render(E, s)
 
 
+def c20_default_solution(E):
+    """solution defaulted to pFBA: the summary describes the model as it stands *now* - also when the same model
+    was summarised before and its stoichiometry (not its bounds or objective) was edited since"""
+    from vlib.lpspec import fba_lp
+    env.for_path(E)
+    m = networks.build("T7")
+    networks.symbolic_bounds(E, m, which=[E.pick("symbolic_reaction", ["EX_A", "DM_B"])], delta=0.01)
+    obj = networks.T["T7"]["objectives"][0]
+    m.objective = {m.reactions.get_by_id(r): c for r, c in obj.items()}
+    earlier = E.flag("summarised_before_a_stoichiometry_edit")
+    kind = E.pick("summary", ["model", "metabolite", "reaction"])
+    E.note(earlier=earlier, kind=kind)
+
+    def make():
+        if kind == "model":
+            return m.summary()
+        if kind == "metabolite":
+            return m.metabolites.B.summary()
+        return m.reactions.DM_B.summary()
+    if earlier:
+        try:
+            make()
+        except Exception:
+            return      # infeasible instance
+        m.reactions.R1.add_metabolites({m.metabolites.B: 1})      # A2 --> 2 B now; bounds and objective untouched
+    lp = fba_lp(m)
+    status, opt, _, _ = lp.optimum(E, obj, "max", name="oracle")
+    try:
+        s = make()
+    except ZeroDivisionError:
+        return      # a whole side of the metabolite balance is zero: 0/0 percentages, outside the claim (see c20_metabolite)
+    except Exception as e:
+        E.prove(status != "optimal", "summary-available-on-feasible-model", exc=type(e).__name__)
+        return
+    if status != "optimal":
+        return
+    if kind == "model":
+        E.prove(E.eq(s._objective_value, opt), "objective-value=optimum-of-the-current-model")
+        listed = {row["reaction"]: row["flux"] for t in (s.uptake_flux, s.secretion_flux) for _, row in t.iterrows()}
+        # the listed boundary fluxes belong to a steady-state optimum of the current model
+        w = lp.fresh_point(E, "w")
+        cons = [lp.feasible(w), lp.lin(obj, w) == opt]
+        for rid, f in listed.items():
+            (met, coef), = m.reactions.get_by_id(rid).metabolites.items()
+            cons.append(_eqz(E, w[rid] * coef, f))
+        wit = None
+        if E.symbolic and E.solve_log:
+            rec = E.solve_log[-1]
+            wit = {w[r.id]: rec["x"][r.id] - rec["x"][r.reverse_id] for r in m.reactions}
+        E.prove_exists(list(w.values()), z3.And(*cons), "listed-fluxes-belong-to-an-optimum-of-the-current-model", witness=wit)
+    elif kind == "metabolite":
+        prod = sum((lift(x) for x in s.producing_flux["flux"]), rv(0))
+        cons_ = sum((lift(x) for x in s.consuming_flux["flux"]), rv(0))
+        # the summary sets fluxes below the model tolerance to zero: balance up to that rounding
+        d = lift(prod + cons_)
+        E.prove(z3.And(d <= rv(1e-6), d >= rv(-1e-6)), "producing-and-consuming-balance")
+    else:
+        f = s._flux["flux"].iloc[0] if hasattr(s, "_flux") else None
+        if f is not None:
+            # DM_B carries the whole objective: flux * 2 = optimum
+            E.prove(E.eq(2 * lift(f), opt), "reaction-flux-consistent-with-the-current-optimum")
+    _render(E, s)
+
+
+def _eqz(E, a, b):
+    if E.symbolic:
+        return lift(a) == lift(b)
+    return z3.And(lift(a) - lift(b) <= rv(1e-6), lift(b) - lift(a) <= rv(1e-6))
+
+
 HARNESSES = [
     H("c20_model", c20_model, quick=dict(max_paths=20000, time_budget=60, witnesses=60),
       thorough=dict(max_paths=300000, time_budget=300, witnesses=300), witness_every=2,
@@ -206,6 +284,10 @@ HARNESSES = [
     H("c20_metabolite", c20_metabolite, quick=dict(max_paths=20000, time_budget=60, witnesses=60),
       thorough=dict(max_paths=300000, time_budget=300, witnesses=300), witness_every=2,
       bounds="as c20_model, every metabolite; paths on which a whole side is zero (0/0 percentages) excluded"),
+    H("c20_default_solution", c20_default_solution, quick=dict(max_paths=4000, time_budget=40, witnesses=40),
+      thorough=dict(max_paths=20000, time_budget=80, witnesses=100), witness_every=2,
+      bounds="T7 with one symbolic reaction; solution defaulted to pFBA (real pfba code on the stub); model / metabolite / "
+             "reaction summary; fresh model, or summarised before and one stoichiometric coefficient edited since"),
     H("c20_reaction", c20_reaction, quick=dict(max_paths=4000, time_budget=30, witnesses=64),
       thorough=dict(max_paths=50000, time_budget=60, witnesses=200),
       witness_every=1, bounds="T7, every reaction, idle and active, with/without FVA frame; every path rendered on its witness"),
